@@ -43,7 +43,9 @@ MANIFEST = {
             'reference directory after every step (thorough: all histories of '
             'length <= 3 over a reduced alphabet are enumerated). SortedList '
             'stepping is checked exhaustively for lists up to length 5; '
-            'iteration-with-removal is driven through the VM.',
+            'iteration-with-removal is driven through the VM.'
+            ' A quarter of the random histories use names that differ onl'
+            'y by case or by a blank at either end.',
     'note': 'Trusted: reference directory; the virtual clock replacing '
             'bardolph.controller.light.time. A light counts as seen when a '
             'successful discovery returned it; expiry is strict (> age limit).',
